@@ -48,6 +48,14 @@ func c06RunChild(env *Env, dir string, sh c06Shard, par int, extra ...string) c0
 			args = append(args, "--opt", k+"="+v)
 		}
 	}
+	if _, set := env.opts["distbatch"]; !set {
+		// batch size of iterator.Distribute (a process-wide option of the code under test): vary it over the children
+		h := uint32(0)
+		for _, c := range sh.name {
+			h = h*31 + uint32(c)
+		}
+		args = append(args, "--opt", "distbatch="+strconv.Itoa([]int{1, 2, 3, 5000}[h%4]))
+	}
 	args = append(args, extra...)
 	cmd := exec.Command(os.Args[0], args...)
 	var se bytes.Buffer
